@@ -42,6 +42,12 @@ def run(chk):
             n += 1
             for c in sv.crash_cases(prog, wd, order=order, seed=seed, ext=ext):
                 items.append(("%s/%s%d/k=%d" % (label, order, seed, c["k"]), prog, ext, [c], [["crash_after_tick", c["k"]]]))
+    # a long run: the persisted log spans several pages of the store's tick streaming (page size 100)
+    wd = chk.work / "c13_long"
+    wd.mkdir(parents=True, exist_ok=True)
+    long_prog = sc.resumable(2, 30, 3, 0)
+    for c in sv.crash_cases(long_prog, wd, order="fifo", seed=0, ks=lambda kinds: [i + 1 for i, k in enumerate(kinds) if k == "add" and i + 1 > 100][:chk.pick(3, 12)]):
+        items.append(("resumable(2,30)/fifo0/k=%d" % c["k"], long_prog, (), [c], [["crash_after_tick", c["k"]]]))
     chk.add(crash_points=len(items))
     eg.standard_run(chk, "C13", None, {"case"}, items=items, key_of=key_of, conform=False,
                     nontrivial=lambda tr: not tr[0]["prefix_ends_run"])
